@@ -143,7 +143,7 @@ def prop(case, rec):
 def cases(draw, max_pt):
     mk = draw(st.sampled_from(['no', 'no', 'yes', 'tied']))
     m = draw(S.rulesets(max_pt=max_pt, markov='no' if mk == 'no' else 'yes', tied_levels=(mk == 'tied'),
-                        families=['dyadic', 'tenths', 'count', 'float']))
+                        families=['dyadic', 'tenths', 'count', 'float', 'tiny']))
     hist = [draw(st.integers(0, 2)), draw(st.integers(0, 50))] if mk != 'no' and draw(st.booleans()) else None
     return {'model': m, 'skip_case': draw(st.integers(0, 4)) == 0, 'markov_history': hist}
 
